@@ -49,6 +49,12 @@ ValInfo(v) == CASE v = 1 -> <<"int", 2, 0, 42>>
                 [] v = 14 -> <<"str", 30, 0, 0>>       \* one too many for key 4
                 [] v = 15 -> <<"str", 68, 1, 0>>       \* 68 characters, the last one a quote: needs 69 on the card
                 [] v = 16 -> <<"int", 10, 0, 2147483647>>
+                [] v = 17 -> <<"str", 2, 2, 0>>        \* two adjacent quotes (four on the card)
+                [] v = 18 -> <<"str", 5, 3, 0>>        \* a, three quotes, b
+                [] v = 19 -> <<"str", 12, 2, 0>>       \* say QQ twice (QQ = two adjacent quotes)
+                [] v = 20 -> <<"str", 34, 34, 0>>      \* 34 quotes: fills a standard card exactly
+                [] v = 21 -> <<"str", 35, 35, 0>>      \* 35 quotes: 70 characters on the card
+                [] v = 22 -> <<"str", 6, 3, 0>>        \* QxQ Qy : quotes at the start and inside
                 [] OTHER -> <<"str", 1, 0, 0>>
 
 KeyClass(k) == KeyInfo(k)[1]
